@@ -87,7 +87,8 @@ pub fn viol(
 pub fn ix_user_account(ix: &Ix) -> Option<Pubkey> {
     let idx = match ix.tag {
         "deposit" | "repay" | "withdraw" | "borrow" | "close_balance" | "withdraw_emissions"
-        | "withdraw_emissions_permissionless" | "set_freeze" | "purge_deleverage_balance" => 1,
+        | "withdraw_emissions_permissionless" | "set_freeze" | "purge_deleverage_balance"
+        | "solend_deposit" => 1,
         "start_flashloan" | "end_flashloan" | "account_close" | "pulse_health"
         | "start_liquidation" | "end_liquidation" | "start_deleverage" | "end_deleverage"
         | "settle_emissions" | "update_emissions_destination" | "init_liq_record" => 0,
